@@ -58,6 +58,26 @@ class M(HasTraits):
     total = Property(Int, observe="li.items")
     z_palette = Instance(Palette)
     _tag = Str("orig", transient=True)
+    # two cached properties over two traits, READ by the static handlers of those traits (so also while a copy's state
+    # is being restored attribute by attribute)
+    w = Int
+    wz = Int
+    both_d = Property(Int, depends_on="w, wz")
+    both_o = Property(Int, observe="[w,wz]")
+
+    @cached_property
+    def _get_both_d(self):
+        return self.w * 100 + self.wz
+
+    @cached_property
+    def _get_both_o(self):
+        return self.w * 100 + self.wz
+
+    def _w_changed(self):
+        self.__dict__["_peek"] = (self.both_d, self.both_o)
+
+    def _wz_changed(self):
+        self.__dict__["_peek"] = (self.both_d, self.both_o)
 
     @cached_property
     def _get_total(self):
@@ -80,6 +100,7 @@ OP = st.one_of(
     st.tuples(st.just("ro"), st.integers(0, 9)), st.tuples(st.just("ref"), st.lists(I5, max_size=3)),
     st.tuples(st.just("sh"), st.lists(st.lists(I5, max_size=2), max_size=2)), st.tuples(st.just("llapp"), I5),
     st.tuples(st.just("palette"), st.sampled_from(["black", "blue"])), st.tuples(st.just("shade"), st.sampled_from(["red", "green"])),
+    st.tuples(st.just("w"), st.integers(1, 9)), st.tuples(st.just("wz"), st.integers(1, 9)),
 ).map(list)
 MODES = ["p0", "p1", "p2", "p3", "p4", "p5", "deepcopy", "clone_deep", "clone_none", "clone_shallow", "copy_traits"]
 
@@ -172,6 +193,9 @@ def objects_run(case, ctx):
         elif k == "llapp":
             if o.ll:
                 o.ll[0].append(op[1])
+        elif k in ("w", "wz"):
+            setattr(o, k, op[1])
+            interesting = True
         elif k == "palette":
             o.z_palette = Palette(shade=op[1])
         elif k == "shade":
@@ -200,7 +224,11 @@ def objects_run(case, ctx):
     c._tag = "copy"
     if type(c) is not M:
         ctx.fail("copy/class", "%s gives a %s" % (mode, type(c).__name__))
-    names = ["li", "ll", "lll", "dl", "si", "kids", "ref_list", "sh_list", "child", "ro", "z_palette"]
+    for pn in ("both_d", "both_o"):
+        if getattr(c, pn) != c.w * 100 + c.wz or getattr(c, pn) != getattr(o, pn):
+            ctx.fail("live/property-dependency", "%s: cached property %s of the image reads %r; w=%r wz=%r (original reads %r)"
+                     % (mode, pn, getattr(c, pn), c.w, c.wz, getattr(o, pn)))
+    names = ["li", "ll", "lll", "dl", "si", "kids", "ref_list", "sh_list", "child", "ro", "z_palette", "w", "wz"]
     for n in names:
         if plain(getattr(c, n)) != plain(getattr(o, n)):
             ctx.fail("state/value", "%s: %s is %r, original %r" % (mode, n, plain(getattr(c, n)), plain(getattr(o, n))))
@@ -277,6 +305,11 @@ def objects_run(case, ctx):
     c.kids[-1].value = 7
     if ("copy", "kidvalue") not in LOG:
         ctx.fail("live/observer", "%s: declared observer does not follow items added to the copy (log %r)" % (mode, LOG))
+    c.wz += 1
+    for pn in ("both_d", "both_o"):
+        if getattr(c, pn) != c.w * 100 + c.wz:
+            ctx.fail("live/property-dependency", "%s: after changing wz on the image its cached property %s reads %r; w=%r wz=%r"
+                     % (mode, pn, getattr(c, pn), c.w, c.wz))
     if ro_set:
         must_reject(ctx, "second assignment of the write-once attribute", lambda: setattr(c, "ro", 99), mode)
     if interesting:
